@@ -2,6 +2,7 @@
 
 import json
 import math
+import sys
 import random
 import re
 import time
@@ -237,7 +238,14 @@ class Context:
 
     def _console_log(self, *args: JSValue) -> None:
         """Console.log implementation."""
-        print(" ".join(to_string(arg) for arg in args))
+        text = " ".join(self._js_to_string(arg) for arg in args)
+        try:
+            print(text)
+        except UnicodeEncodeError:
+            # A lone surrogate (or a character the host's stdout cannot encode)
+            # is written escaped instead of failing the script
+            encoding = getattr(sys.stdout, "encoding", None) or "utf-8"
+            print(text.encode(encoding, "backslashreplace").decode(encoding, "replace"))
 
     def _create_object_constructor(self) -> JSCallableObject:
         """Create the Object constructor with static methods."""
